@@ -58,11 +58,11 @@ def coarse(kind):
     return 'with'
 
 
-ACTNAME = {1: 'raise', 2: 'return', 3: 'break', 4: 'continue', 5: 'reraise', 6: 'raise-e', 7: 'implicit', 8: 'exitflip', 9: 'ifelse', 10: 'ifelse'}
+ACTNAME = {1: 'raise', 2: 'return', 3: 'break', 4: 'continue', 5: 'reraise', 6: 'raise-e', 7: 'implicit', 8: 'exitflip', 9: 'ifelse', 10: 'ifelse', 18: 'reraise-callee'}
 
 
 def actname(code, pkind):
-    if code >= 11:
+    if code >= 11 and code != 18:
         if pkind == 'iter':
             return 'iter-raise'
         if pkind == 'enter':
@@ -101,6 +101,8 @@ def r(x):
         [][1]
 %(user)s    if x > 20:
         r(x - 10)
+def rr():
+    raise
 class CM:
     def __init__(self, a, k, sw):
         self.a = a
@@ -205,7 +207,7 @@ class Prog:
         self.emit(ind, 'x = t(a, %d)' % k)
         exc = self.rnd.choice(EXC6 + (['E1'] if self.userexc else []))
         form = self.rnd.choice(['%s', '%s(1)', '%s("m")'])
-        stmts = {1: 'raise ' + form % exc, 2: 'return %d' % (100 + k), 3: 'break', 4: 'continue', 5: 'raise', 6: 'raise e'}
+        stmts = {1: 'raise ' + form % exc, 2: 'return %d' % (100 + k), 3: 'break', 4: 'continue', 5: 'raise', 6: 'raise e', 18: 'rr()'}
         legal = [1]
         if ctx['func']:
             legal.append(2)
@@ -215,6 +217,7 @@ class Prog:
             legal.append(4)
         if handler is not None:
             legal.append(5)
+            legal.append(18)          # a bare raise in a function called from the handler re-raises the exception being handled
             if handler:
                 legal.append(6)
         rk = self.rkinds()
@@ -521,7 +524,7 @@ def guided(p):
             if c1 is None:
                 continue
             for i, pk in enumerate(pts):
-                for act in [5] + ([6] if asn else []):
+                for act in [5, 18] + ([6] if asn else []):
                     if act not in p.points[pk]['menu']:
                         continue
                     out.append(((t['body'], 0, c1), (pk, 0, act)))
@@ -552,11 +555,15 @@ def vec_taint(p, vec):
             t.add('iterraise')
         if code == 6:
             t.add('raise-e')
+        if code == 18:
+            t.add('reraise-callee')
         if code == 7 and pt.get('store'):
             t.add('eol-raise')
     for code in p.static.values():
         if code == 6:
             t.add('raise-e')
+        if code == 18:
+            t.add('reraise-callee')
         if code in (1, 5, 6):
             t.add('eol-raise')
     return t
@@ -735,7 +742,9 @@ def run(tier, rep):
             v = vecs[j] if j is not None and j < len(vecs) else ()
             tt = vec_taint(p, v)
             # primary taint: the one known defect class (if any) that can explain this kind of deviation
-            if 'userexc' in tt:
+            if 'reraise-callee' in tt and ('exc-wrong:RuntimeError' in dev or dev.startswith('path')):
+                ta = 'reraise-callee'
+            elif 'userexc' in tt:
                 ta = 'userexc'
             elif 'iterraise' in tt:
                 ta = 'iterraise'
@@ -869,7 +878,7 @@ def run(tier, rep):
     stats['phase_seconds'] = {k: round(v, 1) for k, v in phase.items()}
     stats['source_bytes'] = srcbytes[0]
     rep.extra = stats
-    untested = sorted(t for t in tags_seen - clean_tags if not t.startswith(('iter-raise', 'raise-e')))
+    untested = sorted(t for t in tags_seen - clean_tags if not t.startswith(('iter-raise', 'raise-e', 'reraise-callee')))
     if untested:
         rep.extra['tags_without_clean_cases'] = untested[:20]
     rep.assumptions = ['CPython 3.11 is the reference; only exception types are compared, never messages',
